@@ -23,7 +23,7 @@ LEVEL = "fault_enumeration"
 VERSION = 1
 RULE = (
     "one problem = corpus project x seeded (dt, horizon, programs on/off and their start/stop years, y-factor perturbation); for each problem EVERY grid index "
-    "1..N-2 is a crash point, each restarted through a seeded durable medium (live / deepcopy / binary project file / calibration spreadsheet) and optionally chained "
+    "0..N-2 (the first grid year included) is a crash point, each restarted through a seeded durable medium (live / deepcopy / binary project file / calibration spreadsheet) and optionally chained "
     "(restart of a restart, up to 3 links); evaluations = restarts compared with the uninterrupted run; distinct = distinct (project, dt, programs, medium, chain length, crash index) tuples; "
     "non-trivial = the restart happened strictly inside the horizon and at least 2 later indices were compared for every compartment, link, characteristic and parameter"
 )
